@@ -68,6 +68,23 @@ def fault_programs(rng, w, n):
                     i = rng.choice([0, 1, 2, 3, -1, 4, 100] + vals)
                     nn = rng.choice([3, 3, 1, 4, 0])
                     out.append((src, [str(i), str(nn)], 'index_%s_%s' % (el, sc)))
+    # a check that passes on a path that later reaches defeat (inside a try body, inside a defeat function): no flag, the body is
+    # undone / stopped as usual - a guard must not mistake the halt ahead for its own
+    dfn = 'empty !late(int x) { int[] t = [1, 2]; int q[x]; write(t[x - 2] / x); !truth_is_defeat(x > 1); }\n'
+    for hk in ('undo', 'stop'):
+        gb = [
+            ('vla_int', 'int n = 3; try { int scratch[n]; scratch[0] = 1; write(scratch[0]); !is_defeat(); } %s { write("H"); }' % hk),
+            ('vla_bool', 'int n = 9; try { bool fl[n]; fl[8] = true; write(fl[8]); !truth_is_defeat(n > 2); } %s { write("H"); }' % hk),
+            ('vla_string', 'int n = 2; try { string ss[n]; ss[1] = "x"; write(ss[1]); !is_defeat(); } %s { write("H"); }' % hk),
+            ('vla_lit_len', 'try { int scratch[4]; scratch[3] = 1; write(scratch[3]); !is_defeat(); } %s { write("H"); }' % hk),
+            ('index', 'int[] a = [4, 5, 6]; int i = 2; try { write(a[i]); a[i] = 1; !is_defeat(); } %s { write("H"); }' % hk),
+            ('div', 'int d = 2; try { write(10 / d); write(10 %% d); !is_defeat(); } %s { write("H"); }' % hk),
+            ('in_dfn', 'try { !late(2); write("k"); } %s { write("H"); }' % hk),
+            ('call_frame', 'try { write(deep(3)); !is_defeat(); } %s { write("H"); }' % hk),
+        ]
+        for name, body in gb:
+            src = dfn + 'int deep(int k) { if (k == 0) { return 1; } return deep(k - 1) + 1; }\nempty @is_you(int z) { write("pre "); %s write(" post"); }' % body
+            out.append((src, ['1'], 'two_guard_before_defeat_%s_%s' % (hk, name)))
     # two things can go wrong in one statement, or a fault competes with a side effect: which happens first is part of "first"
     noisy = 'int noisy(int a, int b) { write("N"); return a / b; }\n'
     two = [
@@ -130,7 +147,7 @@ def fault_programs(rng, w, n):
     rng.shuffle(out)
     if n >= len(out): return out
     # the ordering family is always represented by the out-of-range index with a zero and a non-zero divisor, and the in-range control
-    must = [o for o in out if o[2].startswith('two_') and (o[2].startswith('two_lengthwrap') or (o[1][0] in ('3', '0') and o[1][1] in ('0', '1')))]
+    must = [o for o in out if o[2].startswith('two_') and (o[2].startswith('two_lengthwrap') or o[2].startswith('two_guard_before') or (o[1][0] in ('3', '0') and o[1][1:2] in (['0'], ['1'])))]
     rest = [o for o in out if o not in must]
     return must + rest[:max(0, n - len(must))]
 
@@ -286,7 +303,55 @@ def order_programs(rng, n=None):
             for tag, body in forms:
                 src = decl_g + bump + helpers + 'empty @is_you() { %s%s write(\' \'); write(%s); }' % (pre, body, show % read)
                 out.append((src, [], '%s_%s_%s' % (ty, storage, tag)))
+    # compound element assignment whose right-hand side changes that very element (by reference, through a global array)
+    ce = [
+        ('int_ref', 'int bump(int[] arr, int k) { arr[k] = arr[k] + 100; return 1; }\n', 'int[] a = [1, 2, 3];', ['a[0] += bump(a, 0);', 'a[1] *= bump(a, 1) + 1;', 'a[2] -= bump(a, 2);', 'a[0] %= bump(a, 0) + 6;'],
+         'write(a[0]); write(\',\'); write(a[1]); write(\',\'); write(a[2]);'),
+        ('byte_ref', 'byte bump(byte[] arr, int k) { arr[k] = 50; return 2; }\n', 'byte[] a = [1, 2, 3];', ['a[0] += bump(a, 0);', 'a[1] *= bump(a, 1);'],
+         'write(a[0] is int); write(\',\'); write(a[1] is int);'),
+        ('int_global', 'int[] ga = [5, 6, 7];\nint bump(int k) { ga[k] = ga[k] * 10; return 3; }\n', '', ['ga[0] += bump(0);', 'ga[1] -= bump(1);', 'ga[2] /= bump(2);'],
+         'write(ga[0]); write(\',\'); write(ga[1]); write(\',\'); write(ga[2]);'),
+        ('int_index_moves', 'int cur = 0;\nint step() { cur += 1; return 9; }\n', 'int[] a = [1, 2, 3];', ['a[cur] += step();', 'a[cur] *= step();'],
+         'write(a[0]); write(\',\'); write(a[1]); write(\',\'); write(a[2]); write(cur);'),
+    ]
+    for tag, pre, decl, stmts, show in ce:
+        out.append((pre + 'empty @is_you() { %s %s %s }' % (decl, ' '.join(stmts), show), [], 'compound_elem_' + tag))
+    # indexing a string whose address was computed, with an index expression that needs the same scratch registers
+    si = [
+        ('arr_call', 'const string[] words = ["alpha", "beta", "gamma"];\nint digit(string d, int k) { return d[k] - \'0\'; }\n',
+         'for (int k = 0; k < 3; k += 1) { write(words[k][digit("120", k)]); }'),
+        ('arr_nested', 'const string[] words = ["alpha", "beta", "gamma"];\n', 'string d = "120"; for (int k = 0; k < 3; k += 1) { write(words[k][d[k] - \'0\']); }'),
+        ('arr_boolidx', 'const string[] words = ["alpha", "beta", "gamma"];\n', 'bool[] f = [true, false, true]; for (int k = 0; k < 3; k += 1) { write(words[k][f[k] is int]); }'),
+        ('global_swap', 'string g = "first";\nint swap() { g = "other"; return 0; }\n', 'write(g[swap()]); write(g);'),
+        ('arr_arith', 'const string[] words = ["alpha", "beta", "gamma"];\n', 'for (int k = 0; k < 3; k += 1) { write(words[k][(k + 1) % 4]); }'),
+        ('length_call', 'const string[] words = ["alpha", "beta", "gamma"];\nint two(string s) { return s.length - 2; }\n',
+         'for (int k = 0; k < 3; k += 1) { write(words[k][two(words[k])]); write(words[two("abcd") - k % 2].length); }'),
+    ]
+    for tag, pre, body in si:
+        out.append((pre + 'empty @is_you() { %s }' % body, [], 'string_index_' + tag))
     if n is not None and len(out) > n: out = rng.sample(out, n)
+    return out
+
+
+def spec_programs():
+    """(tag, src, args): `L ?? R` - R is always evaluated (its output, its effect on globals, its faults), the value is L's
+    unless that makes defeat... ; L constant / variable / call, R a bare call, a call under a coercion, in arithmetic, under
+    `not`, inside an index, a faulting expression"""
+    out = []
+    pre = ('int g = 0;\nbyte bumpb() { g += 1; write(\'b\'); return 4; }\nint bump() { g += 1; write(\'B\'); return 5; }\n'
+           'bool chk() { g += 1; write(\'c\'); return true; }\nint id(int x) { return x; }\nint[] arr = [10, 20, 30];\nconst int K = 7;\n')
+    lefts = {'lit': '7', 'const': 'K', 'var': 'v', 'call': 'id(v)', 'arith': '(v + 1)'}
+    rights = {'bare': 'bump()', 'coerced': 'bumpb()', 'arith': 'bump() + 1', 'index': 'arr[bumpb() - 3]', 'div': '10 / d', 'oob': 'arr[d + 3]',
+              'const': '9', 'var': 'd'}
+    for lk, l in lefts.items():
+        for rk, r in rights.items():
+            src = pre + 'empty @is_you(int d) { int v = 3; int x = %s ?? %s; write(x); write(\' \'); write(g); writeln(); }\n' % (l, r)
+            for d in ('0', '1'):
+                out.append(('spec_%s_%s' % (lk, rk), src, [d]))
+    for lk, l in (('lit', 'true'), ('var', 't')):
+        for rk, r in (('not_call', 'not chk()'), ('call', 'chk()'), ('cmp', 'bump() > d')):
+            src = pre + 'empty @is_you(int d) { bool t = false; bool x = %s ?? %s; write(x); write(\' \'); write(g); writeln(); }\n' % (l, r)
+            out.append(('specb_%s_%s' % (lk, rk), src, ['1']))
     return out
 
 
